@@ -458,6 +458,15 @@ LARGER_ENCODERS = {
     "SATEncoder._encode_vars": [
         "for var in self.model._vars.values():\n        lits = [var.bool_vars[v] for v in range(var.lb, var.ub + 1)]\n        self._encode_exactly_one(lits)",
     ],
+    "SATEncoder._encode_ne_expr": [
+        "coefs, const = self._flatten_sum(left)\n    right_coefs, right_const = self._flatten_sum(right)\n    for name, k in right_coefs.items():\n        coefs[name] = coefs.get(name, 0) - k\n    const -= right_const\n    target = -const",
+        "terms = [(self.model._vars[name], k) for name, k in coefs.items() if k != 0]\n    if not terms:\n        if (target != 0) != is_ne:\n            self._clauses.append([])\n        return",
+        "var, k = terms[0]\n    reached = {k * v: lit for v, lit in var.bool_vars.items()}",
+        "sums = {s + k * v for s in reached for v in var.bool_vars}\n        partial = self._create_int_var(min(sums), max(sums))",
+        "self._clauses.append([-s_lit, -v_lit, partial.bool_vars[s + k * v]])",
+        "reached = {s: partial.bool_vars[s] for s in sums}",
+        "if is_ne:\n        if target in reached:\n            self._clauses.append([-reached[target]])\n    elif target in reached:\n        self._clauses.append([reached[target]])\n    else:\n        self._clauses.append([])",
+    ],
     "SATEncoder._encode_capacity_constraint": [
         "for subset in combinations(range(n), size):",
         "if sum((demands[i] for i in subset)) > capacity:",
@@ -490,6 +499,16 @@ def check_small_semantics(ctx: Ctx, oid: str, encoder: bool = True, dfs: bool = 
             t = ast.unparse(f.node)
             missing = [fr.split("\n")[0] for fr in frags if fr not in t]
             ctx.ob(oid, "R18 table", f, f"{q.split('.')[1]} has every case of its definition", not missing, f"not found: {missing[:2]}", node=f.node)
+        # exact quotients only: `t // k` silently rounds, so `k * x == t` gains a model when k does not divide t
+        em = ctx.repo.module("cp_encoder")
+        for q_, f_ in sorted(em.funcs.items()):
+            for n_ in f_.own_nodes():
+                if isinstance(n_, ast.BinOp) and isinstance(n_.op, ast.FloorDiv):
+                    fcfg_ = cfg_of(f_.node)
+                    at_ = GuardView(fcfg_).guard_atoms(fcfg_.stmt_node_containing(n_), stable_only=False)
+                    num, den = ast.unparse(n_.left), ast.unparse(n_.right)
+                    okd = any(f"{num} % {den}" in a_ and "== 0" in a_ or a_ == f"0 == {num} % {den}" for a_ in at_)
+                    ctx.ob(oid, "R32 EXACT-DIVISION", f_, f"`{ast.unparse(n_)}` is used as an exact quotient only under a divisibility test", okd, "floor division rounds: a linear equation whose right-hand side is not a multiple of the coefficient gets the rounded value as a model", node=n_)
         cc = ctx.func("cp_encoder", "SATEncoder._encode_capacity_constraint")
         sizes = [n for n in own_nodes(cc.node) if isinstance(n, ast.For) and ast.unparse(n.target) == "size"]
         ok = len(sizes) == 1 and isinstance(sizes[0].iter, ast.Call) and ast.unparse(sizes[0].iter.func) == "range" and len(sizes[0].iter.args) == 2 and ast.unparse(sizes[0].iter.args[0]) == "1"
